@@ -254,3 +254,26 @@ func (s *sut) validate(topic string, data []byte, at time.Time) (ans answer) {
 	}
 	return answer{v, s.cap.reason}
 }
+
+// clockAt / validateNoClock: the concurrent half freezes the clock once per execution.
+func (s *sut) clockAt(at time.Time) {
+	vtime.ResetClock()
+	vtime.Set(at)
+}
+
+func (s *sut) validateNoClock(topic string, data []byte) (ans answer) {
+	defer func() {
+		if p := recover(); p != nil {
+			ans = answer{"panic", fmt.Sprint(p)}
+		}
+	}()
+	t := topic
+	pm := &pubsub.Message{Message: &pspb.Message{Topic: &t, Data: data}}
+	switch s.mv.ValidatePubsubMessage(context.Background(), "c09-peer", pm) {
+	case pubsub.ValidationAccept:
+		return answer{verdict: "accept"}
+	case pubsub.ValidationIgnore:
+		return answer{verdict: "ignore"}
+	}
+	return answer{verdict: "reject"}
+}
